@@ -226,7 +226,14 @@ def handle (line : String) : String :=
       match unhex hx, parseInst inst with
       | some raw, some ins =>
         let m := bhex (Charset.fromXML raw ins)
-        if m == goRes then "OK" else s!"DIFF cs-xml model={m}"
+        let d := if m == goRes then "" else s!"DIFF cs-xml model={m}"
+        -- no encoding declared: the sniffing rules of C11 apply to the result
+        let declared := match ins with
+          | some i => Charset.xmlEncoding i != []
+          | none => false
+        let sp := if declared then "" else Spec.charsetSpec raw goRes
+        let all := [d, sp].filter (· != "")
+        if all.isEmpty then "OK" else String.intercalate " ; " all
       | _, _ => "BAD args"
     | ["meta", hx] =>
       match unhex hx with
@@ -425,6 +432,21 @@ def handle (line : String) : String :=
         let all := [d, s1, s2, s3].filter (· != "")
         if all.isEmpty then "OK" else String.intercalate " ; " all
       | none => "BAD args"
+    | ["jsubcut", hx, lim, decEnd] =>
+      match unhex hx, parseNat lim, parseNat decEnd with
+      | some doc, some l, some de =>
+        if l < de then "SKIP deciding-member-cut" else
+        match Spec.J.doc true doc with
+        | none => "SKIP not-strict"
+        | some v =>
+          let expect : String :=
+            if Spec.J.isGeo v then bhex (ofString "application/geo+json") ++ "|" ++ bhex (ofString ".geojson")
+            else if Spec.J.isHar v then bhex (ofString "application/json") ++ "|" ++ bhex (ofString ".har")
+            else if Spec.J.isGltf v then bhex (ofString "model/gltf+json") ++ "|" ++ bhex (ofString ".gltf")
+            else bhex (ofString "application/json") ++ "|" ++ bhex (ofString ".json")
+          let leaf := (goRes.splitOn ",").headD ""
+          if leaf == expect then "OK" else s!"SPEC C10:wrong-json-subtype-with-deciding-member-inside-header expected={expect}"
+      | _, _, _ => "BAD args"
     | ["jsub", hx, lim] =>
       match unhex hx, parseNat lim with
       | some doc, some l =>
